@@ -205,6 +205,9 @@ const smtPreludeCore = `
 (assert (forall ((v RV)) (! (=> (not (rv_valid v)) (= v RV_zero)) :pattern ((rv_valid v)))))
 (assert (forall ((v RV)) (! (and (<= 0 (rv_kind v)) (<= (rv_kind v) 26) (= (= (rv_kind v) 0) (not (rv_valid v)))) :pattern ((rv_kind v)))))
 (declare-fun dyn_type (Int) Int)
+(declare-fun kindName (Int) Str)
+(declare-fun cite (Int) Int)
+(declare-fun fmtline (Str) Int)
 (define-fun godiv ((a Int) (b Int)) Int (ite (>= a 0) (ite (> b 0) (div a b) (- (div a (- b)))) (ite (> b 0) (- (div (- a) b)) (div (- a) (- b)))))
 (define-fun gomod ((a Int) (b Int)) Int (- a (* b (godiv a b))))
 `
